@@ -19,7 +19,7 @@ Inductive tstmt :=
 | TImport (aliases : list alias)
 | TImportFrom (module : option string) (names : list alias) (level : nat)
 | TAssign (k : assign_kind) (py_bound : list string)      (* py_bound / py_unbound: the names PYTHON binds / unbinds (plain name *)
-| TDelete (names : list string) (py_unbound : list string) (* targets only) - not used by rattr, read by the specification    *)
+| TDelete (names : list string) (py_unbound : list string) (* targets only); rattr removes py_unbound (the base names before 0e6fa15) *)
 | TDef (name : string)                     (* def / async def *)
 | TClass (name : string)
 | TBlock (body : list tstmt)               (* if / for / while / try / with: the statements register_stmts is given, in its order *)
@@ -89,7 +89,7 @@ Section Root.
         else add_aliases sc (Some mn) names
       end
     | TAssign k _ => ROk (reg_assign sc k)
-    | TDelete names _ => ROk (fold_left scope_remove names sc)
+    | TDelete _ plain_names => ROk (fold_left scope_remove plain_names sc)   (* only plain-name targets are removed (fix 0e6fa15) *)
     | TDef n => ROk (root_add sc (mkSym n KFunc))
     | TClass n => ROk (root_add sc (mkSym n KClass))
     | TBlock body =>
